@@ -204,6 +204,11 @@ func c12archive(r *rand.Rand, shape string) []tarx.Entry {
 	return entries
 }
 
+// failingCloser is a source whose Close fails although every byte was delivered.
+type failingCloser struct{ io.Reader }
+
+func (failingCloser) Close() error { return errors.New("exit status 1") }
+
 // chunkedReader delivers its data in short reads.
 type chunkedReader struct {
 	data  []byte
@@ -351,6 +356,11 @@ func c12run(env *core.Env, idx int) core.CaseResult {
 			// every second unpacking reads the archive through a source that returns short reads (a pipe, a socket, a
 			// decompressor): at most 'chunk' bytes per Read, never an error before the end
 			stream = &chunkedReader{data: arch, chunk: []int{1000, 333, 4096 + 17}[(run/2+int(cs.Seed))%3]}
+		}
+		if run%3 == 2 {
+			// a source that is an io.Closer whose Close reports a failure (a sub-process pipe with an exit status, a body with a
+			// late error) AFTER it has delivered the whole archive: what was unpacked is there all the same
+			stream = failingCloser{stream}
 		}
 		if p := core.Recover(func() { t, nerr = hptar.NewReaderFS(context.Background(), stream, opt) }); p != "" || nerr != nil {
 			res.Violate(sig("constructor"), fmt.Sprintf("NewReaderFS failed: %v %s", nerr, p), wit)
